@@ -1,7 +1,7 @@
 (* C01 - Resolved state is the Sidetree state-machine fold of the operation history. *)
 From Coq Require Import ZArith Bool List String.
 From Sidetree Require Import Json.Json Sidetree.Protocol Sidetree.Window Sidetree.Composer Sidetree.Applier Sidetree.ValidatorJequiv
-     Sidetree.ComposerOrder Sidetree.ApplierOrder.
+     Sidetree.ComposerOrder Sidetree.JsonPatchOrder Sidetree.ComposerOrderAll Sidetree.ApplierOrder.
 Import ListNotations.
 Open Scope Z_scope.
 
@@ -62,10 +62,10 @@ Definition ex_view (uc rc : string) (o : json) (f u : Z) (ps : list json) : opvi
      v_delta_valid := true; v_update_c := uc; v_recovery_c := rc; v_origin := o; v_from := f; v_until := u; v_patches := ps |}.
 (* The resolved state does not depend on how the members of any request were ordered: histories whose
    operations differ only in the member order of patches and anchor origins (no member named twice;
-   dedicated actions - ietf-json-patch is outside this theorem), folded over states that differ only
+   order_blind: ietf-json-patches without `test` operations), folded over states that differ only
    so, give states that differ only so.  op_rel / rm_rel: every other field equal. *)
 Theorem C01_resolution_member_order : forall cfg hist hist' rm rm',
-  Forall2 op_rel hist hist' -> rm_rel rm rm' -> Forall (fun a => Forall dedicated (v_patches (a_view a))) hist ->
+  Forall2 op_rel hist hist' -> rm_rel rm rm' -> Forall (fun a => Forall order_blind (v_patches (a_view a))) hist ->
   rm_rel (run cfg apply_patches rm hist) (run cfg apply_patches rm' hist').
 Proof. exact run_member_order. Qed.
 Print Assumptions C01_resolution_member_order.
